@@ -15,9 +15,10 @@ open H2V.Lemmas.ConnCtlP (GoAwayInv Keep15 Step15 GaLe gaLast view)
 /-- no local SETTINGS_INITIAL_WINDOW_SIZE is in flight -/
 def IwsInv (c : Conn) : Prop := ∀ v, LocIn c v → ConnCtlP.getS v 4 = none
 
-theorem IwsInv.le {c c' : Conn} (h : IwsInv c) (hl : LocLe c c') : IwsInv c' := fun v hv => h v (hl v hv)
+theorem IwsInv.le {c c' : Conn} (h : IwsInv c) (hl : LocLe c c') : IwsInv c' := fun v hv => h v (hl.1 v hv)
 /-- `IwsInv` only looks at `settings.loc` (handle calls and transport events keep it) -/
-theorem IwsInv.congr {c c' : Conn} (h : IwsInv c) (hl : c'.settings.loc = c.settings.loc) : IwsInv c' := h.le (.of_eq hl)
+theorem IwsInv.congr {c c' : Conn} (h : IwsInv c) (hl : c'.settings.loc = c.settings.loc) : IwsInv c' := by
+  intro v hv; unfold LocIn at hv; rw [hl] at hv; exact h v hv
 
 /-- `ConnP`, and `apply_local_settings` is called without an INITIAL_WINDOW_SIZE -/
 def ConnP' (s : Streams) : Op → Prop
@@ -55,10 +56,12 @@ structure RdOK (c : Conn) : Prop where
   max : c.codec.r.maxFrameLen ≤ 16777215
   need : ∀ n, c.codec.r.need = some n → n ≤ 16777224
   loc : ∀ v m, LocIn c v → ConnCtlP.getS v 5 = some m → m ≤ 16777215
+  rem : ∀ v, c.settings.remote = some v → ConnFlowP.SettingsOk v
   iws : IwsInv c
 
 theorem RdOK.keep {c c' : Conn} (h : RdOK c) (hr : c'.codec.r = c.codec.r) (hl : LocLe c c') : RdOK c' :=
-  ⟨by rw [hr]; exact h.max, by rw [hr]; exact h.need, fun v m hv hm => h.loc v m (hl v hv) hm, h.iws.le hl⟩
+  ⟨by rw [hr]; exact h.max, by rw [hr]; exact h.need, fun v m hv hm => h.loc v m (hl.1 v hv) hm,
+    fun v hv => h.rem v (hl.2 v hv), h.iws.le hl⟩
 
 /-- the connection invariant with `IwsInv` -/
 structure ConnOK (c : Conn) : Prop where
@@ -67,8 +70,8 @@ structure ConnOK (c : Conn) : Prop where
   rd : RdOK c
 
 theorem ConnOK.of {c : Conn} (hc : ConnNoPanicP.ConnOK c) (hi : IwsInv c) : ConnOK c :=
-  ⟨hc.ga, hc.ping, ⟨hc.rd.max, hc.rd.need, hc.rd.loc, hi⟩⟩
-theorem ConnOK.toOK {c : Conn} (hc : ConnOK c) : ConnNoPanicP.ConnOK c := ⟨hc.ga, hc.ping, ⟨hc.rd.max, hc.rd.need, hc.rd.loc⟩⟩
+  ⟨hc.ga, hc.ping, ⟨hc.rd.max, hc.rd.need, hc.rd.loc, hc.rd.rem, hi⟩⟩
+theorem ConnOK.toOK {c : Conn} (hc : ConnOK c) : ConnNoPanicP.ConnOK c := ⟨hc.ga, hc.ping, ⟨hc.rd.max, hc.rd.need, hc.rd.loc, hc.rd.rem⟩⟩
 theorem ConnOK.iws {c : Conn} (hc : ConnOK c) : IwsInv c := hc.rd.iws
 
 /-- a step seen from the invariant: what it must keep -/
